@@ -98,15 +98,23 @@ def graphs():
     co = ("coalesce", [guarded, ("val", "fallback")])
     return [("single", inner), ("chain", mid), ("diamond", top), ("overload-on-dataset", ov), ("cached-combinator", ("cached", ("apply", inner, ("fn", "f")), "c")),
             # a cached member that cannot be evaluated for A=2 (outside its domain): the coalesce falls through
-            ("coalesce-of-cached", co), ("switch-on-coalesce", ("switch", co, [("fallback", ("val", "fallback-branch"))], ("val", "no-branch")))]
+            ("coalesce-of-cached", co), ("switch-on-coalesce", ("switch", co, [("fallback", ("val", "fallback-branch"))], ("val", "no-branch"))),
+            # a memoizing consumer over a coalesce whose fallback reads another option
+            ("outer-over-coalesce-of-cached", ("ds", "outer", {"params": [("coalesce", [guarded, ("opt", "Y", ("val", 0))])]}),
+             [{"A": 2, "Y": 1}, {"A": 2, "Y": 2}, {"A": 1, "Y": 1}])]
+
+
+def graph_dicts(gi):
+    g = graphs()[gi]
+    return g[2] if len(g) > 2 else DICTS
 
 
 DICTS = [{"A": 1}, {"A": 2}]
 
 
-def histories(maxlen):
+def histories(maxlen, ndicts=2):
     for n in range(1, maxlen + 1):
-        yield from itertools.product(range(len(DICTS)), repeat=n)
+        yield from itertools.product(range(ndicts), repeat=n)
 
 
 def cases(tier, seed):
@@ -123,7 +131,8 @@ def cases(tier, seed):
 
 
 def run_one(gi, variant, script, hist):
-    label, term = graphs()[gi]
+    label, term = graphs()[gi][:2]
+    dicts = graph_dicts(gi)
     counter = {"calls": 0, "faults": 0, "trace": []}
     # one store per dataset (a fingerprint identifies an assignment, not the dataset); the call
     # counter and the script are shared by all of them
@@ -135,7 +144,7 @@ def run_one(gi, variant, script, hist):
     wt.start()
     fails = []
     for n, j in enumerate(hist):
-        o = DICTS[j]
+        o = dicts[j]
         got = observe(w, lambda: obj.evaluate(copy.deepcopy(o)))
         want = observe(wt, lambda: tobj.evaluate(copy.deepcopy(o)))
         d = same_obs(got, want)
@@ -157,12 +166,12 @@ def run_case(case):
     _, gi, variant, pre, N = case
     reported = set()
     scripts = [pre + "".join(rest) for rest in itertools.product(SYMS, repeat=N - len(pre))]
-    if gi in (0, 1, 5):
+    if gi in (0, 1, 5, 7):
         # persistent faults ("at any call"): short scripts whose last behaviour repeats for ever
         scripts += [pre + "".join(rest) + "*" for n in (0, 1) for rest in itertools.product(SYMS, repeat=n)]
     for script in scripts:
         res["scripts"] += 1
-        for hist in histories(3 if (N <= 5 and gi == 0) else 2):
+        for hist in histories(3 if (N <= 5 and gi == 0) else 2, len(graph_dicts(gi))):
             fails, counter = run_one(gi, variant, script, hist)
             res["evaluations"] += 1
             res["max_calls"] = max(res["max_calls"], counter["calls"])
@@ -179,7 +188,7 @@ def run_case(case):
 
 def _fail(gi, variant, script, hist, kind, d):
     return {"sig": f"C17|{graphs()[gi][0]}|{variant}|{kind}|{script}|{list(hist)}",
-            "what": f"{kind}: graph {graphs()[gi][0]} with backend {variant}, script {script} (per backend call), history {[DICTS[j] for j in hist]}",
+            "what": f"{kind}: graph {graphs()[gi][0]} with backend {variant}, script {script} (per backend call), history {[graph_dicts(gi)[j] for j in hist]}",
             "detail": d, "case": ("one", gi, variant, script, list(hist))}
 
 
